@@ -13,6 +13,7 @@
 //!   `usize <hex>`                        `discriminant_to_usize` through an enum variant
 //!   `fields <name> <k> (<names>)`      field names+order of a harness struct type in the IDL (op: Rust declaration order; k = number visible)
 //!   `ty <name> <shape>` / `enc <name> <shape> <val>` / `dec <idlty> <hex>`       type layouts
+//!   `vset <name> <id|-> (<vfields>)` / `vflat <name> <id> <progid> <present> <idlset> (<client>)`  multi-variant sets
 //!   `set <name> <setshape>` / `metas <name> <setshape> <progid> <present>`      harness account sets
 use crate::{
     sets, shipped,
@@ -123,6 +124,7 @@ pub fn programs() -> Vec<Prog> {
                 shipped::ix_row::<crate::HxIdl, sets::SetNested>(),
                 shipped::ix_row::<crate::HxIdl, sets::SetInit>(),
                 shipped::ix_row::<crate::HxIdl, sets::SetOne>(),
+                shipped::ix_row::<crate::HxIdl, sets::SetPass>(),
                 shipped::ix_row::<crate::HxIdl, sets::SetManyMid>(),
                 shipped::ix_row::<crate::HxIdl, sets::SetRestMid>(),
                 shipped::ix_row::<crate::HxIdl, sets::SetTwoMany>(),
@@ -165,7 +167,9 @@ shipped::dummy_struct!(sets::SetTwoManyClientAccounts { head, pair, others });
 shipped::dummy_struct!(sets::InnerManyClientAccounts { who, list });
 shipped::dummy_struct!(sets::SetNestedManyMidClientAccounts { inner, after });
 shipped::dummy_struct!(sets::SetOptFlatClientAccounts { a, b, mid, last });
-shipped::dummy_struct!(sets::SetDowngradeClientAccounts { a, b });
+shipped::dummy_struct!(sets::SetPassClientAccounts { a, b, c, d, e, f, g, h });
+shipped::dummy_struct!(sets::SetVariantsClientAccounts { a, b, c, d, e, f, g, h });
+shipped::dummy_struct!(sets::SetVariants2ClientAccounts { x, y, z });
 shipped::dummy_struct!(sets::wide::WideAClientAccounts { who, acct });
 use shipped::Dummy;
 
@@ -327,6 +331,7 @@ struct Env {
     type_idl: IdlDefinition,
     type_frag: BTreeMap<&'static str, IdlTypeDef>,
     sets: Vec<sets::SetEntry>,
+    vsets: Vec<sets::VSet>,
     /// value of the last `enc` line (what `dec` must give back)
     last_enc: Option<(String, Val, usize)>,
 }
@@ -342,7 +347,7 @@ impl Env {
         for t in &types {
             type_frag.insert(t.name, (t.idl)(&mut type_idl));
         }
-        Env { progs, idls, types, type_idl, type_frag, sets: sets::set_table(), last_enc: None }
+        Env { progs, idls, types, type_idl, type_frag, sets: sets::set_table(), vsets: sets::vset_table(), last_enc: None }
     }
     fn prog(&self, name: &str) -> Option<&Prog> {
         self.progs.iter().find(|p| p.name == name)
@@ -595,6 +600,42 @@ fn exec(env: &mut Env, rec: &mut Recorder, line: &str) -> String {
                 None => "bad-op".into(),
             }
         }
+        ("vset", 4) => {
+            let (Some(v), Some(idt)) = (a(1).and_then(|n| env.vsets.iter().find(|v| v.name == n)), a(2)) else { return "bad-op".into() };
+            let id = if idt == "-" { None } else { Some(idt) };
+            let Some((def, set)) = (v.idl)(id) else { return "bad-op".into() };
+            // oracle (strict per-id lookup, straight from the attributes as written in sets.rs): a field
+            // of variant `id` has an address / seeds iff an attribute with EXACTLY that id gives them
+            if let Some(IdlAccountSetDef::Struct(fs)) = resolve_set(&def, &set) {
+                for (f, (fname, attrs, _)) in fs.iter().zip(&v.fields) {
+                    let at = attrs.iter().find(|(aid, _, _)| *aid == id);
+                    let want_addr = at.and_then(|x| x.2);
+                    let want_seeds = at.map(|x| x.1).unwrap_or(false);
+                    if let Some(IdlAccountSetDef::Single(x)) = resolve_set(&def, &f.account_set_def) {
+                        if x.address != want_addr || x.seeds.is_some() != want_seeds {
+                            rec.fail(
+                                "idl_variant_uses_attribute_of_another_variant",
+                                &format!("{line}: field {fname} of variant {idt}: idl address {:?} seeds {}, attributes say {:?} / {want_seeds}", x.address.map(|a| hex(a.as_ref())), x.seeds.is_some(), want_addr.map(|a| hex(a.as_ref()))),
+                            );
+                        }
+                    }
+                }
+            }
+            format!("ok {}", sx::show_idl_set(&def, &set, 0))
+        }
+        ("vflat", 7) => {
+            let (Some(v), Some(idt), Some(present)) = (a(1).and_then(|n| env.vsets.iter().find(|v| v.name == n)), a(2), a(4).and_then(parse_present)) else { return "bad-op".into() };
+            let Some((def, set)) = (v.idl)(if idt == "-" { None } else { Some(idt) }) else { return "bad-op".into() };
+            let client = (v.metas)(present);
+            let mut want = vec![];
+            sx::ref_flatten(&def, crate::HxIdl::ID.as_ref(), present, &set, &mut want);
+            let same = want.len() == client.len()
+                && want.iter().zip(&client).all(|(i, c)| i.signer == c.signer && i.writable == c.writable && (present || i.key == c.key || (c.key == "f" && i.key != "p" && i.key != "f")));
+            if !same {
+                rec.fail("idl_accounts_differ_from_client_metas", &format!("{line}: idl [{}] client [{}]", sx::show_slots(false, &want), sx::show_slots(false, &client)));
+            }
+            format!("{} {}", if same { "ok" } else { "mismatch" }, sx::show_slots(present, &want))
+        }
         ("metas", 5) => {
             let (Some(e), Some(present)) = (a(1).and_then(|n| env.sets.iter().find(|s| s.name == n)), a(4).and_then(parse_present)) else { return "bad-op".into() };
             let p = env.prog("hx").unwrap();
@@ -813,18 +854,44 @@ pub fn run(args: &Args) {
         rec.sample_current(5);
     }
 
-    // ---- observation (not part of the property's quantifier): MaybeSigner<false, Signer<_>>
-    {
-        let mut def = IdlDefinition::default();
-        let idl = <sets::SetDowngradeAccounts as AccountSetToIdl<()>>::account_set_to_idl(&mut def, ()).unwrap();
-        let mut want = vec![];
-        sx::ref_flatten(&def, crate::HxIdl::ID.as_ref(), false, &idl, &mut want);
-        let got = shipped::metas_of::<sets::SetDowngradeAccounts>(&crate::HxIdl::ID, false);
-        rec.extra.insert(
-            "observation_flag_downgrade".into(),
-            hx_common::json!({"set": "{a: MaybeSigner<false, Signer<AccountInfo>>, b: MaybeMut<false, Mut<AccountInfo>>}",
-                "idl": sx::show_slots(false, &want), "client_metas": sx::show_slots(false, &got), "same": want == got}),
-        );
+    // ---- multi-variant account sets: every variant's IDL vs the model's strict lookup and vs the client metas
+    let vsets: Vec<(&'static str, Vec<Option<&'static str>>, String)> = env
+        .vsets
+        .iter()
+        .map(|v| {
+            let fields: Vec<String> = v
+                .fields
+                .iter()
+                .map(|(n, attrs, inner)| {
+                    let at: Vec<String> = attrs
+                        .iter()
+                        .map(|(id, seeds, ad)| format!("({} {} {})", id.unwrap_or("-"), *seeds as u8, ad.map(|a| hex(a.as_ref())).unwrap_or_else(|| "-".into())))
+                        .collect();
+                    format!("({n} ({}) {inner})", at.join(" "))
+                })
+                .collect();
+            (v.name, v.variants.clone(), format!("({})", fields.join(" ")))
+        })
+        .collect();
+    for (name, variants, fields) in vsets {
+        rec.case(&format!("case vset {name}"));
+        for id in variants {
+            let idt = id.unwrap_or("-");
+            go(&mut env, &mut rec, format!("vset {name} {idt} {fields}"));
+            let (idl_fn, metas_fn) = {
+                let v = env.vsets.iter().find(|v| v.name == name).unwrap();
+                (v.idl, v.metas)
+            };
+            if let Some((def, set)) = idl_fn(id) {
+                let set_txt = sx::show_idl_set(&def, &set, 0);
+                for present in [false, true] {
+                    let client = metas_fn(present);
+                    go(&mut env, &mut rec, format!("vflat {name} {idt} {pid} {} {set_txt} ({})", present as u8, sx::show_slots(false, &client)));
+                }
+            }
+        }
+        rec.mark_nontrivial();
+        rec.sample_current(6);
     }
 
     // ---- discriminant_to_usize over widths 0..9
